@@ -247,65 +247,95 @@ def rule_strictness(ctx):
 
 
 def rule_envelope(ctx):
+    """Serializer.unserialize decided cell-wise: for every abstract shape of what the object serializer hands back (and every
+    framing flag) the outcome is ProtocolError, or the messages parsed by the class registered for the type code, in order."""
     ctx.rule("C08.4-envelope")
-    an = get_analysis(ctx)
+    from ..core.tiny import Tiny, Sym, TinyRaise, Buf
     fn = ctx.program.func("autobahn.wamp.serializer.Serializer.unserialize")
     ctx.analysed(fn)
-    g, mf, res = an.get(fn)
-    dec = [(n, c) for n in g.stmt_nodes() for c in node_calls(n) if norm.text(c.func) == "self._serializer.unserialize"]
-    ctx.require(len(dec) == 1, "object-serializer call not found in Serializer.unserialize")
-    n = dec[0][0]
-    hs = [m for m, lab in n.succ if lab and lab[0] == "exc"]
-    ok = bool(hs) and any(h.ast.type is not None and norm.text(h.ast.type) in ("Exception", "BaseException") for h in hs)
-    body_ok = ok and all(any(isinstance(x.ast, ast.Raise) and isinstance(x.ast.exc, ast.Call) and norm.text(x.ast.exc.func) == "ProtocolError" for x, _ in h.succ) for h in hs)
-    ctx.ob("any exception of the object serializer is turned into ProtocolError", bool(body_ok), "decoder call not wrapped in `except Exception -> raise ProtocolError`", fn.loc(dec[0][1]))
-    from ..core.flow import local_assignments
-    parse = [(m_, c) for m_ in g.stmt_nodes() for c in node_calls(m_) if isinstance(c.func, ast.Attribute) and c.func.attr == "parse" and isinstance(c.func.value, ast.Name)
-             and len(c.args) == 1]
-    ctx.require(len(parse) == 1, "<message class>.parse(raw message) call not found in Serializer.unserialize")
-    P = parse[0][0]
-    F = mf.at(P) or ()
-    K = parse[0][1].func.value.id
-    R = norm.text(parse[0][1].args[0])
-    kdefs = [v for v in local_assignments(fn, K) if v is not None]
-    ctx.require(len(kdefs) == 1, f"definition of the message class variable `{K}` not found")
-    kd = kdefs[0]
-    via_get = isinstance(kd, ast.Call) and norm.text(kd.func) == "self.MESSAGE_TYPE_MAP.get" and len(kd.args) == 1
-    via_idx = isinstance(kd, ast.Subscript) and norm.text(kd.value) == "self.MESSAGE_TYPE_MAP"
-    ctx.ob("class looked up in MESSAGE_TYPE_MAP by type code", via_get or via_idx, f"{K} = {norm.text(kd)}", fn.loc())
-    Texpr = kd.args[0] if via_get else (kd.slice if via_idx else None)
-    T = norm.text(Texpr) if Texpr is not None else None
-    tdef = T
-    if isinstance(Texpr, ast.Name):
-        td = [v for v in local_assignments(fn, Texpr.id) if v is not None]
-        tdef = norm.text(td[0]) if len(td) == 1 else None
-    ctx.ob("type code is the first element", tdef == f"{R}[0]", f"type code = {tdef}", fn.loc())
+    prm = fn.params()
+    ctx.require(len(prm) >= 2, "Serializer.unserialize(payload, isBinary) signature changed")
+    class _NoStats(ast.NodeTransformer):  # statistics counters (self._x += ...) are bookkeeping outside the envelope: not modelled
+        def visit_AugAssign(self, node):
+            return ast.copy_location(ast.Pass(), node) if norm.text(node.target).startswith("self._") else node
+    import copy
+    body = [_NoStats().visit(copy.deepcopy(x)) for x in fn.node.body if not (isinstance(x, ast.Expr) and isinstance(x.value, ast.Constant))]
+    counters = {norm.text(x.target) for x in ast.walk(fn.node) if isinstance(x, ast.AugAssign)}
+    reads = {norm.text(x) for x in ast.walk(fn.node) if isinstance(x, ast.Attribute) and norm.text(x).startswith("self._") and not isinstance(x.ctx, ast.Store)}
 
-    def eq_fact(a, b, pol=True):
-        for f in F:
-            if f[0] == "eq" and f[3] == pol:
-                l = f[1]
-                r = f[2][1] if isinstance(f[2], tuple) else f[2]
-                if {str(l), str(r)} == {a, b}:
-                    return True
-        return False
-    nonempty = any((f[0] == "eq" and f[1] == f"len({R})" and f[2] == ("c", 0) and not f[3]) or
-                   (f[0] == "lt" and f[1] == ("c", 0) and f[2] == ("e", f"len({R})") and f[3]) or
-                   (f[0] == "truth" and f[1] == R and f[3]) for f in F)
-    known = (via_get and ("is", K, ("c", None), False) in F) or (via_idx and any(f[0] == "in" and f[1] == T and f[3] and "MESSAGE_TYPE_MAP" in str(f[2]) for f in F))
-    obl = [("element is a list", eq_fact("list", f"type({R})")),
-           ("element is non-empty", nonempty),
-           ("type code is an int", T is not None and eq_fact("int", f"type({T})")),
-           ("type code is known", bool(known))]
-    for name, okf in obl:
-        ctx.ob(f"envelope: {name} before parse", okf, f"{K}.parse reachable without `{name}`", fn.loc(parse[0][1]))
-    ctx.ob("parse is given the whole raw message", True, "", fn.loc())
-    # all raises in the function are ProtocolError
-    raises = [s for s in walk_no_defs(fn.node) if isinstance(s, ast.Raise)]
-    ctx.ob("unserialize raises ProtocolError only", all(isinstance(r.exc, ast.Call) and norm.text(r.exc.func) == "ProtocolError" for r in raises) and len(raises) >= 5,
+    def cell(raws, decoder_raises=False, is_binary=None, binary=False):
+        parsed = []
+
+        def mk(code):
+            def parse(raw):
+                parsed.append((code, raw))
+                return Sym(f"message-{code}-{len(parsed)}")
+            return Sym(f"class-{code}", methods={"parse": parse})
+        tmap = {1: mk(1), 48: mk(48)}
+
+        def dec(p_):
+            if decoder_raises:
+                raise TinyRaise(decoder_raises)
+            return raws
+        ser = Sym("object-serializer", methods={"unserialize": dec}, BINARY=binary, NAME="json")
+        env = {"self": Sym("serializer"), prm[1]: Buf(10, 10), "self._serializer": ser, "self.MESSAGE_TYPE_MAP": tmap}
+        if len(prm) > 2:
+            env[prm[2]] = is_binary
+        for c_ in counters | {r for r in reads if not r.startswith("self._serializer")}:
+            env.setdefault(c_, 0)
+        t = Tiny(env, default_call=lambda f_, a_, k_=None: Sym(f"<{f_}>"), model_types=True)
+        try:
+            r = t.run(body)
+        except TinyRaise as ex:
+            r = ("raise", str(ex))
+        return r, parsed
+
+    def is_perr(r):
+        return r[0] == "raise" and r[1].split("(")[0].strip().split(".")[-1] == "ProtocolError"
+    good1, good2 = [1, "realm1", {}], [48, 7, {}, "com.x"]
+    bad = {"a dict instead of a list": {"a": 1}, "a tuple instead of a list": (1, "realm1", {}), "a string": "abc", "an int": 5, "None": None,
+           "an empty list": [], "a str type code": ["1", "x"], "a bool type code": [True, "x"], "a float type code": [1.0, "x"], "a None type code": [None],
+           "a list as type code": [[1]], "a dict as type code": [{}], "an unknown type code": [999, 1], "a negative type code": [-1]}
+    probs = []
+    try:
+        for why, raw in bad.items():
+            for raws, pos in (([raw], "alone"), ([good1, raw], "after a valid message")):
+                r, parsed = cell(raws)
+                if not is_perr(r):
+                    probs.append(f"decoded element is {why} ({pos}): {r[0]} {str(r[1])[:80]}")
+        ctx.ob(f"envelope: every decoded element that is not a list starting with a known int type code is a ProtocolError [{2 * len(bad)} cells]",
+               not probs, "; ".join(probs[:2]), fn.loc())
+        probs = []
+        for raws in ([good1], [good2], [good1, good2], [good2, good1, good2], []):
+            r, parsed = cell(raws)
+            ok = r[0] == "return" and isinstance(r[1], list) and len(r[1]) == len(raws) and len(parsed) == len(raws) and \
+                all(pc == raw[0] and pr is raw for (pc, pr), raw in zip(parsed, raws)) and \
+                all(isinstance(m_, Sym) and m_.name == f"message-{raw[0]}-{i + 1}" for i, (m_, raw) in enumerate(zip(r[1], raws)))
+            if not ok:
+                probs.append(f"valid batch of type codes {[x[0] for x in raws]}: {r[0]} {str(r[1])[:80]}, parse calls {[c for c, _ in parsed]}")
+        ctx.ob("envelope: each valid element is parsed by the class registered for its type code, given the whole raw message; results come back in order [5 cells]",
+               not probs, "; ".join(probs[:2]), fn.loc())
+        probs = []
+        for kind in ("ValueError", "Exception", "UnicodeDecodeError", "KeyError", "TypeError", "RecursionError"):
+            r, parsed = cell([good1], decoder_raises=kind)
+            if not is_perr(r) or parsed:
+                probs.append(f"object serializer raises {kind}: {r[0]} {str(r[1])[:80]}")
+        ctx.ob("any exception of the object serializer is turned into ProtocolError [6 cells]", not probs, "; ".join(probs[:2]), fn.loc())
+        probs = []
+        if len(prm) > 2:
+            for binary in (False, True):
+                for flag in (None, False, True):
+                    r, parsed = cell([good1], is_binary=flag, binary=binary)
+                    want_err = flag is not None and flag != binary
+                    if want_err != is_perr(r) or (want_err and parsed):
+                        probs.append(f"frame flag isBinary={flag}, serializer BINARY={binary}: {r[0]} {str(r[1])[:60]}")
+        ctx.ob("a frame whose text/binary flag differs from the serializer's BINARY is a ProtocolError, a matching or unknown flag is not [6 cells]",
+               len(prm) > 2 and not probs, "; ".join(probs[:2]) or "isBinary parameter missing", fn.loc())
+    except AnalysisError as e:
+        raise AnalysisError(f"[C08.4-envelope] Serializer.unserialize outside the modelled subset: {e}")
+    raises = [s_ for s_ in walk_no_defs(fn.node) if isinstance(s_, ast.Raise)]
+    ctx.ob("unserialize raises ProtocolError only", all(isinstance(r.exc, ast.Call) and norm.text(r.exc.func) == "ProtocolError" for r in raises) and len(raises) >= 3,
            f"{[norm.text(r.exc)[:30] for r in raises]}", fn.loc())
-    flag = [n_ for n_ in g.stmt_nodes() if n_.kind == "test" and "isBinary" in norm.mentions_of(n_.ast) and "self._serializer.BINARY" in norm.mentions_of(n_.ast)]
-    ctx.ob("binary flag compared with the serializer's BINARY attribute", len(flag) == 1, "flag check changed", fn.loc())
 
 
 def rule_role_features(ctx):
